@@ -364,6 +364,7 @@ class FakeOS:
         if o.kind == "pipe_w":
             pp = o.obj
             if pp.readers == 0:
+                _sigpipe(s, p)
                 raise BrokenPipeError(errno.EPIPE, "Broken pipe")
             if len(pp.buf) + len(data) > pp.cap:
                 if o.nonblock:
@@ -620,6 +621,15 @@ class FakeFcntl:
 
 
 # ================================================================================================= signal / time / select
+def _sigpipe(s, p):
+    """EPIPE comes with SIGPIPE.  The interpreter ignores it from its start (and every simulated process is a Python process), so it only
+    matters to a process that has installed something else - the default action, for one, which ends it."""
+    h = p.handlers.get(int(_signal.SIGPIPE), SIG_IGN)
+    if h is not SIG_IGN:
+        s.kill(p.pid, int(_signal.SIGPIPE), sender=p.name)
+        s.tick()
+
+
 class FakeSignal:
     SIG_DFL, SIG_IGN = SIG_DFL, SIG_IGN
     Signals = _signal.Signals
@@ -945,6 +955,7 @@ class SimSocket:
         if o.kind != "stream":
             raise OSError(errno.ENOTCONN, "Transport endpoint is not connected")
         if st.shut_wr:
+            _sigpipe(s, p)
             raise BrokenPipeError(errno.EPIPE, "Broken pipe")
         peer = st.peer
         if st.rst:
@@ -952,6 +963,7 @@ class SimSocket:
             raise ConnectionResetError(errno.ECONNRESET, "Connection reset by peer")
         if peer.closed:
             st.rst = True
+            _sigpipe(s, p)
             s.tick()
             raise BrokenPipeError(errno.EPIPE, "Broken pipe")
         peer.rbuf += data
